@@ -150,9 +150,17 @@ func (histEngine) execute(sc *Scenario) *Outcome {
 	for k, v := range w.Env {
 		env[k] = v
 	}
-	zone := time.FixedZone("SIM", w.ZoneMin*60)
+	zone := w.loc()
 	clock := time.Unix(w.BaseUnix, 0).In(zone)
 	out.Log = append(out.Log, fmt.Sprintf("hist focus=%s base=%s cpus=%d cfg=%q", hc.Focus, clock.Format(time.RFC3339), w.Cpus, w.ConfigIni))
+	if w.ZoneName != "" {
+		out.stat("fired_dst_zone", 1)
+		_, o1 := clock.Add(-24 * time.Hour).Zone()
+		_, o2 := clock.Add(24 * time.Hour).Zone()
+		if o1 != o2 {
+			out.stat("fired_dst_offset_change_within_a_day", 1)
+		}
+	}
 	var seq []string
 	successes := 0
 
@@ -178,7 +186,7 @@ func (histEngine) execute(sc *Scenario) *Outcome {
 		}
 		before := hw.snapshot()
 		spec := &ProcSpec{Argv: resolveArgv(op.Argv, root), Tape: op.Tape, MapTape: op.MapTape, MapOrder: op.MapOrder, Plan: op.Plan,
-			Base: clock, ZoneMin: w.ZoneMin, Root: root, Stdin: op.Stdin, Cpus: cpus, Env: env, Steps: op.Steps, LongRun: op.Kind == "pause"}
+			Base: clock, ZoneMin: w.ZoneMin, ZoneName: w.ZoneName, Root: root, Stdin: op.Stdin, Cpus: cpus, Env: env, Steps: op.Steps, LongRun: op.Kind == "pause"}
 		c := &stepCtx{sc: sc, hc: hc, out: out, i: i, op: op}
 		spec.OnEdit = func(e *EditFault, reads, writes int) {
 			applyEdit(hw, e, out)
@@ -408,7 +416,7 @@ func (c *stepCtx) judge() {
 	}
 
 	// --- C04 / C17 (model) ---
-	mc := &modelCtx{w: w, clk: mkClock(c.clock)}
+	mc := &modelCtx{w: w, clk: mkClock(c.clock), openTrailingBlank: openTrailingBlankRe.MatchString(c.before[c.target])}
 	var outcomes []MOutcome
 	var partial []MState
 	if op.Kind == "pause" {
